@@ -109,3 +109,10 @@ def apply_then_linearize(comp, inputs_cs, inputs, outputs, residuals, jacobian):
     """real `apply_nonlinear` on dual-number inputs, real `linearize` on the real parts"""
     comp.apply_nonlinear(inputs_cs, outputs, residuals)
     comp.linearize(inputs, outputs, jacobian)
+
+
+# ---- C07 ------------------------------------------------------------------------------------
+def set_then_get(graph, node, val, src_units, tgt_units, units):
+    """what Problem.set_val stores in the source's units, read back by Problem.get_val in the same units"""
+    stored = graph.convert_set(val, src_units, tgt_units, (), units, None)
+    return graph.convert_get(node, stored, src_units, tgt_units, (), units, None, False)
